@@ -112,6 +112,21 @@ Fixpoint first_firing (cbs : list callback) (b : bytes) (i : nat) : option (nat 
   | c :: t => if cb_check c b then Some (i, c) else first_firing t b (S i)
   end.
 
+(* ---------- in-channel ssh error messages (channel/auth.go sshMessageHandler) ---------- *)
+(* the first clause of the generated switch whose literal occurs in the lower-cased buffer decides;
+   the clause with the nested switch ("no matching ...") yields an error only if one of its nested
+   literals occurs or the "their offer" pattern matches the original buffer *)
+Fixpoint ssh_error_scan (cases : list (list bytes * bool * list bytes)) (lower orig : bytes) : bool :=
+  match cases with
+  | [] => false
+  | (lits, nested, nlits) :: rest =>
+      if existsb (fun l => contains l lower) lits then
+        if nested then existsb (fun l => contains l lower) nlits || rx_match rx_ssh_offeredOptions orig
+        else true
+      else ssh_error_scan rest lower orig
+  end.
+Definition ssh_error (b : bytes) : bool := ssh_error_scan ssh_error_cases (to_lower b) b.
+
 (* ---------- the four ReadUntil conditions ---------- *)
 
 Inductive cond :=
@@ -120,7 +135,8 @@ Inductive cond :=
 | CPrompt
 | CAnyPrompt (pats : list re)
 | CWholeAny (pats : list re)     (* login loops: patterns on the whole buffer, no window *)
-| CCallbacks (cbs : list callback) (prefix : bytes).   (* some callback fires on prefix ++ buffer *)
+| CCallbacks (cbs : list callback) (prefix : bytes)    (* some callback fires on prefix ++ buffer *)
+| CSshAuth (prefix : bytes) (pats : list re).          (* authenticateSSH: an ssh error message or one of the patterns, on prefix ++ buffer (whole) *)
 
 Definition cond_holds (cfg : chan_cfg) (c : cond) (rb : bytes) : bool :=
   match c with
@@ -130,6 +146,7 @@ Definition cond_holds (cfg : chan_cfg) (c : cond) (rb : bytes) : bool :=
   | CAnyPrompt pats => let prb := process_read_buf rb (c_depth cfg) in existsb (fun p => rx_match p prb) pats
   | CWholeAny pats => existsb (fun p => rx_match p rb) pats
   | CCallbacks cbs prefix => match first_firing cbs (prefix ++ rb) 0 with Some _ => true | None => false end
+  | CSshAuth prefix pats => ssh_error (prefix ++ rb) || existsb (fun p => rx_match p (prefix ++ rb)) pats
   end.
 
 (* ---------- operation language ---------- *)
@@ -141,8 +158,9 @@ Inductive prog (R : Type) : Type :=
 | Fail (e : err)
 | Write (b : bytes) (redacted : bool) (k : prog R)
 | Until (c : cond) (k : bytes -> prog R) (h : err -> prog R)   (* h: what a deadline / connection loss at this read continues with *)
-| Note (tag : N) (data : bytes) (k : prog R).     (* a log line (tag = call site, data = payload) *)
-Arguments Ret {R}. Arguments Fail {R}. Arguments Write {R}. Arguments Until {R}. Arguments Note {R}.
+| Note (tag : N) (data : bytes) (k : prog R)      (* a log line (tag = call site, data = payload) *)
+| Requeue (b : bytes) (k : prog R).               (* Q.Requeue: put bytes back at the front of the queue *)
+Arguments Ret {R}. Arguments Fail {R}. Arguments Write {R}. Arguments Until {R}. Arguments Note {R}. Arguments Requeue {R}.
 
 Fixpoint bind {A B} (p : prog A) (f : A -> prog B) : prog B :=
   match p with
@@ -151,6 +169,7 @@ Fixpoint bind {A B} (p : prog A) (f : A -> prog B) : prog B :=
   | Write b red k => Write b red (bind k f)
   | Until c k h => Until c (fun rb => bind (k rb) f) (fun e => bind (h e) f)
   | Note t d k => Note t d (bind k f)
+  | Requeue b k => Requeue b (bind k f)
   end.
 
 (* error handler: run [h] when [p] fails (used for "implicit privilege change failed") *)
@@ -161,6 +180,7 @@ Fixpoint catch {A} (p : prog A) (h : err -> prog A) : prog A :=
   | Write b red k => Write b red (catch k h)
   | Until c k h0 => Until c (fun rb => catch (k rb) h) (fun e => catch (h0 e) h)
   | Note t d k => Note t d (catch k h)
+  | Requeue b k => Requeue b (catch k h)
   end.
 
 (* ---------- programs ---------- *)
@@ -268,6 +288,64 @@ Definition send_with_callbacks (cfg : chan_cfg) (input : bytes) (cbs : list call
    | _ => fun k => Write input false (Write (c_ret cfg) false k)
    end) (cb_loop 64 cfg cbs [] [] []).
 
+(* ---------- in-channel authentication (channel/auth.go) and Channel.Open (channel.go) ---------- *)
+Record auth_pats := mkAuthPats { ap_user : re; ap_pass : re; ap_passphrase : re }.
+Definition default_auth_pats : auth_pats := mkAuthPats rx_username_pattern rx_password_pattern rx_passphrase_pattern.
+
+(* authenticateSSH: after every chunk: error messages, then prompt, password, passphrase — on the
+   whole buffer accumulated since the last reset *)
+Fixpoint auth_ssh_loop (fuel : nat) (cfg : chan_cfg) (ap : auth_pats) (pw pp : bytes) (b : bytes) (pcount ppcount : nat) : prog bytes :=
+  match fuel with
+  | O => Fail EOperation
+  | S f =>
+      Until (CSshAuth b [c_prompt cfg; ap_pass ap; ap_passphrase ap])
+            (fun nb =>
+               let b := b ++ nb in
+               if ssh_error b then Fail EConnection
+               else if rx_match (c_prompt cfg) b then Ret b
+               else if rx_match (ap_pass ap) b then
+                      if Nat.ltb password_seen_max (S pcount) then Fail EAuth
+                      else Write pw true (Write (c_ret cfg) false (auth_ssh_loop f cfg ap pw pp [] (S pcount) ppcount))
+               else if rx_match (ap_passphrase ap) b then
+                      if Nat.ltb passphrase_seen_max (S ppcount) then Fail EAuth
+                      else Write pp true (Write (c_ret cfg) false (auth_ssh_loop f cfg ap pw pp [] pcount (S ppcount)))
+               else auth_ssh_loop f cfg ap pw pp b pcount ppcount)
+            Fail
+  end.
+Definition auth_fuel : nat := (password_seen_max + passphrase_seen_max + username_seen_max + 6)%nat.
+Definition auth_ssh (cfg : chan_cfg) (ap : auth_pats) (pw pp : bytes) : prog bytes :=
+  auth_ssh_loop auth_fuel cfg ap pw pp [] 0 0.
+
+(* authenticateTelnet: ReadUntilAnyPrompt (windowed) then the tests on the accumulated buffer *)
+Fixpoint auth_telnet_loop (fuel : nat) (cfg : chan_cfg) (ap : auth_pats) (user pw : bytes) (b : bytes) (ucount pcount : nat) : prog bytes :=
+  match fuel with
+  | O => Fail EOperation
+  | S f =>
+      Until (CAnyPrompt [c_prompt cfg; ap_user ap; ap_pass ap])
+            (fun nb =>
+               let b := b ++ nb in
+               if rx_match (c_prompt cfg) b then Ret b
+               else if rx_match (ap_user ap) b then
+                      if Nat.ltb username_seen_max (S ucount) then Fail EAuth
+                      else Write user true (Write (c_ret cfg) false (auth_telnet_loop f cfg ap user pw [] (S ucount) pcount))
+               else if rx_match (ap_pass ap) b then
+                      if Nat.ltb password_seen_max (S pcount) then Fail EAuth
+                      else Write pw true (Write (c_ret cfg) false (auth_telnet_loop f cfg ap user pw [] ucount (S pcount)))
+               else auth_telnet_loop f cfg ap user pw b ucount pcount)
+            Fail
+  end.
+Definition auth_telnet (cfg : chan_cfg) (ap : auth_pats) (user pw : bytes) : prog bytes :=
+  auth_telnet_loop auth_fuel cfg ap user pw [] 0 0.
+
+(* Channel.Open after the transport is up: run the login, put what it read back on the queue *)
+Inductive auth_kind := AuthNone | AuthSSH (pw pp : bytes) | AuthTelnet (user pw : bytes).
+Definition channel_open (cfg : chan_cfg) (ap : auth_pats) (a : auth_kind) : prog bytes :=
+  match a with
+  | AuthNone => Ret []
+  | AuthSSH pw pp => bind (auth_ssh cfg ap pw pp) (fun b => match b with [] => Ret [] | _ => Requeue b (Ret b) end)
+  | AuthTelnet u pw => bind (auth_telnet cfg ap u pw) (fun b => match b with [] => Ret [] | _ => Requeue b (Ret b) end)
+  end.
+
 (* ---------- interpreter over an explicit schedule ---------- *)
 
 (* The environment: what the device has emitted and the transport has not yet read ([pending],
@@ -324,6 +402,8 @@ Section Run.
         | Write b red k =>
             let '(d', out) := feed (s_dev s) b in
             set_pc (mkSys d' (s_pending s ++ out) (s_queue s) (s_acc s) k (s_wlog s ++ [(b, red)]) (s_notes s) (s_reader s)) k
+        | Requeue b k =>
+            set_pc (mkSys (s_dev s) (s_pending s) (b :: s_queue s) (s_acc s) k (s_wlog s) (s_notes s) (s_reader s)) k
         | Until c k h =>
             match s_reader s with
             | RErr => set_pc (mkSys (s_dev s) (s_pending s) (s_queue s) [] (h ETransport) (s_wlog s) (s_notes s) RRun) (h ETransport)
